@@ -210,8 +210,17 @@ func VerifC08_LongSyncVsIdleCleaner() {
 	go v.s.idleHandlerCleaner()
 	verif_Quiesce()
 	evch, _ := v.s.OnSyncFinished()
-	// the older head is announced: its sync starts (handler used at t=0)
-	verif_Assume(v.s.Announce(context.Background(), w.chain[1], w.pinfo) == nil)
+	// the older head is synced — announced, or explicitly by the application
+	// (an explicit sync holds only the handler's sync mutex): the sync starts
+	// (handler used at t=0)
+	explicitFirst := verif_Bool("firstSyncIsExplicit")
+	if explicitFirst {
+		go func() {
+			_, _ = v.s.SyncAdChain(context.Background(), w.pinfo, WithHeadAdCid(w.chain[1]))
+		}()
+	} else {
+		verif_Assume(v.s.Announce(context.Background(), w.chain[1], w.pinfo) == nil)
+	}
 	verif_Quiesce() // the sync is waiting for its first block
 	verif_Assert(inFlight == 1, "the announced sync is in progress")
 	// much later the sync is still running; the cleaner ticks; the newest head is announced
@@ -231,5 +240,10 @@ func VerifC08_LongSyncVsIdleCleaner() {
 		verif_Assert(e.Err == nil, "no failure in a fault-free run")
 		blocks += e.Count
 	}
-	verif_Assert(blocks == n && len(v.log) == n, "every advertisement was reported exactly once")
+	if !explicitFirst {
+		verif_Assert(blocks == n && len(v.log) == n, "every advertisement was reported exactly once")
+	} else {
+		// the explicit sync of an explicit head records nothing: the announced sync reports the whole chain
+		verif_Assert(blocks == n, "the announced head was synced and notified")
+	}
 }
